@@ -272,7 +272,9 @@ impl C19 {
         let again = serde_yaml::to_string(&loaded).unwrap_or_default();
         if again != yaml {
             acc.violation(format!("C19|second-dump-differs|{name}"), case, json!({"dump": yaml, "second": again, "case": case}));
+            return;
         }
+        acc.outcome(&format!("value-round-trip:{name}"), case);
     }
 
     fn injectivity(&self, case: u64, acc: &mut Acc) {
@@ -356,22 +358,24 @@ impl C19 {
                 }
                 true
             };
-            // live sets
-            let li = n.live_in();
-            let flipped = if li.contains(&reg(30)) { li - reg(30) } else { li | reg(30) };
-            let _ = n.set_live_in(flipped);
-            let ok = check("live_in", acc);
-            let _ = n.set_live_in(li);
-            if !ok {
-                return;
-            }
-            let lo = n.live_out();
-            let flipped = if lo.contains(&reg(30)) { lo - reg(30) } else { lo | reg(30) };
-            let _ = n.set_live_out(flipped);
-            let ok = check("live_out", acc);
-            let _ = n.set_live_out(lo);
-            if !ok {
-                return;
+            // live sets: one bit flipped, for a register of every class and both ends of the range
+            for bit in [1u8, 5, 10, 27, 30, 31] {
+                let li = n.live_in();
+                let flipped = if li.contains(&reg(bit)) { li - reg(bit) } else { li | reg(bit) };
+                let _ = n.set_live_in(flipped);
+                let ok = check("live_in", acc);
+                let _ = n.set_live_in(li);
+                if !ok {
+                    return;
+                }
+                let lo = n.live_out();
+                let flipped = if lo.contains(&reg(bit)) { lo - reg(bit) } else { lo | reg(bit) };
+                let _ = n.set_live_out(flipped);
+                let ok = check("live_out", acc);
+                let _ = n.set_live_out(lo);
+                if !ok {
+                    return;
+                }
             }
             // a value fact
             let ri = n.reg_values_in();
@@ -435,6 +439,14 @@ impl C19 {
             }
             let _ = std::fs::remove_dir_all(dir);
         }
+        // which kinds of facts this dump carried
+        let mut kinds: Vec<&str> = Vec::new();
+        for tag in ["!c ", "!a ", "!m ", "!mr ", "!mor ", "!r ", "!or ", "!csr ", "sp+", "sp-", "csr+", "csro+", "!FuncEntry", "!ProgramEntry"] {
+            if yaml.contains(tag) {
+                kinds.push(tag.trim());
+            }
+        }
+        acc.outcome(&format!("program-dump:{}:{}", k.family, kinds.join(",")), case);
     }
 }
 
